@@ -578,5 +578,16 @@ def f_(ck: Check) -> None:
                         probs.append(f"line {getattr(d_, 'lineno', c.lineno)}: the restriction uses `{text(v_)[:50] if v_ is not None else '?'}`, "
                                      f"not the node's own space: variables fixed by percolation (or by the rest of the space) stay "
                                      f"in the reduced object when this path is taken")
+            if callee == "percolate_network":
+                # the node's network is over the free variables only: the fixed ones are removed, not kept as constants
+                g = ck.prog.fm("biobalm.space_utils", "percolate_network")
+                gp = g.f.params()
+                rc = call_arg(c, gp.index("remove_constants"), "remove_constants") if "remove_constants" in gp else None
+                if "remove_constants" not in gp:
+                    raise AnalysisError("anchor vanished: remove_constants parameter of percolate_network")
+                if not is_true(rc):
+                    probs.append(f"remove_constants is `{text(rc) if rc is not None else 'left at its default'}`: the node's network "
+                                 f"keeps the fixed variables as constants, so it is not an encoding over the free variables "
+                                 f"(and disagrees with the node's restricted Petri net, NFVS and candidate search)")
             ck.ob("F", fm, f.stmt_of(c), not probs, "; ".join(probs) if probs else
                   "restricted to the node's own space on every path", key=f"{q.split('.')[1]} space")
